@@ -1,0 +1,57 @@
+//go:build verif
+
+// Thin contracts for package geo (C13): the great-circle kernels are sin/cos/asin/atan2/mod evaluations in binary64, outside the
+// contract family. Each is modelled as an uninterpreted mathematical function of its arguments (`pureas`), so that the LOGICAL
+// clauses of C13 (which comparison is made, between which quantities) can be decided over the abstract arithmetic mode.
+// Read by /verif/govc (comment-only file, compiled only under the build tag "verif").
+
+package geo
+
+//@ spec func haversineS(latA real, lonA real, latB real, lonB real) real
+//@ spec func normalizeDistanceS(meters real) real
+//@ spec func distanceToHaversineS(meters real) real
+//@ spec func distanceFromHaversineS(h real) real
+//@ spec func distanceToS(latA real, lonA real, latB real, lonB real) real
+
+//@ func Haversine
+//@   props C13
+//@   arith abstract
+//@   trusted numeric kernel (math.Sin/Cos in binary64); deterministic and frame-free, modelled as the uninterpreted haversineS
+//@   pureas haversineS
+//@ func NormalizeDistance
+//@   props C13
+//@   arith abstract
+//@   trusted numeric kernel (math.Mod); deterministic and frame-free, modelled as the uninterpreted normalizeDistanceS
+//@   pureas normalizeDistanceS
+//@ func DistanceToHaversine
+//@   props C13
+//@   arith abstract
+//@   trusted numeric kernel (math.Sin); deterministic and frame-free, modelled as the uninterpreted distanceToHaversineS
+//@   pureas distanceToHaversineS
+//@ func DistanceFromHaversine
+//@   props C13
+//@   arith abstract
+//@   trusted numeric kernel (math.Asin/Sqrt); deterministic and frame-free, modelled as the uninterpreted distanceFromHaversineS
+//@   pureas distanceFromHaversineS
+//@ func DistanceTo
+//@   props C13
+//@   arith abstract
+//@   trusted numeric kernel; deterministic and frame-free, modelled as the uninterpreted distanceToS
+//@   pureas distanceToS
+//@ func DestinationPoint
+//@   props C13
+//@   arith abstract
+//@   trusted numeric kernel (two results, unconstrained); only called by makeCircleObject, which is itself trusted
+
+// ---- the three numeric facts the logical clauses of C13 rest on (DESIGN §5 C13). They are statements about the REAL functions
+// sin^2(m/2R) and fmod; for the binary64 evaluations they are assumed (numeric clauses are outside the contract family).
+// half the Earth's circumference, pi * 6371e3 (only its sign and 0 < piR < 2 piR matter here)
+//@ spec func piRS() real { 20015086.796 }
+//@ axiom ANormalizeId(m real)
+//@   requires 0 <= m && m < 2 * piRS()
+//@   ensures normalizeDistanceS(m) == m
+//@ axiom ADistanceToHaversineMono(m1 real, m2 real)
+//@   requires 0 <= m1 && m1 <= m2 && m2 <= piRS()
+//@   ensures distanceToHaversineS(m1) <= distanceToHaversineS(m2)
+//@ axiom ADistanceToHaversineZero()
+//@   ensures distanceToHaversineS(0) == 0
